@@ -311,9 +311,9 @@ ASSUMPTIONS = [
 
 
 def finish(R, level, explanation):
-    vac = [c for c in R.covers if c[1] == 'requires-satisfiable' and c[2] == 'unsat']
+    vac = [c for c in R.covers if (c[1] == 'requires-satisfiable' and c[2] == 'unsat') or (c[1] == 'exit-reachable' and c[2] in ('unsat', 'no-exit-path'))]
     if vac:
-        R.log('VACUOUS precondition(s):', vac)
+        R.log('VACUOUS precondition(s) / unreachable exit:', vac)
         write_evidence(R, level, 'vacuous precondition: ' + repr(vac))
         return 3
     if R.refutation and (not any(o.status == 'sat' for o in R.obligations) or getattr(R, 'refutation_applies', None) is not None):
